@@ -20,6 +20,7 @@ EXTENDS ChmodSym
 CONSTANTS MaxLen,        \* every string over Alphabet up to this length
           LongLen,       \* strings  [dfa] ":" s  with Len(s) <= LongLen - 2
           StartPerms,    \* start permission values (12 bits: special bits included)
+          StringPerms,   \* start permission values used with the raw strings
           DoubleGroups, DoublePerms    \* group / permission spellings used for the cross product of double clauses
 VARIABLES expr, kind, m0,      \* the input: expression, kind of the entry, its start mode (never change)
           inp,                 \* characters not yet read
@@ -43,8 +44,8 @@ Clause(t, g, o, p) == <<t, ":">> \o g \o <<o>> \o p
 Singles == {Clause(t, g, o, p) : t \in {"d", "f", "a"}, g \in GroupSpellings, o \in {"-", "+", "="}, p \in PermSpellings}   \* 945
 DoubleGroupsDef == {<<"u">>, <<"g", "o">>, <<"a">>}
 DoublePermsDef  == {<<"r">>, <<"w", "x">>, <<"r", "w", "x">>}
-DoubleGroupsT == {<<"u">>, <<"g">>, <<"o">>, <<"g", "o">>, <<"a">>}
-DoublePermsT  == {<<"r">>, <<"w">>, <<"x">>, <<"w", "x">>, <<"r", "w", "x">>}
+DoubleGroupsT == {<<"u">>, <<"o">>, <<"g", "o">>, <<"a">>}
+DoublePermsT  == {<<"r">>, <<"x">>, <<"w", "x">>, <<"r", "w", "x">>}
 DClauses == {Clause(t, g, o, p) : t \in {"d", "f", "a"}, g \in DoubleGroups, o \in {"-", "+", "="}, p \in DoublePerms}
 Doubles == {c1 \o <<",">> \o c2 : c1 \in DClauses, c2 \in DClauses}
 Strings == UNION {[1..n -> Alphabet] : n \in 0..MaxLen}
@@ -60,7 +61,9 @@ HandWritten == {
    <<"a", ":", "u", "+", "x", ",">>, <<"a", ":", "u", "+", "x", ",", ",", "a", ":", "u", "+", "r">>,      \* empty later clause: unsettled
    <<"a", ":", "u", "+", "x", ",", "f", ":", "a", "+">>,                                                  \* later clause without permission
    <<"a", ":", "u", "+", "-", "x">>, <<"a", ":", "+", "x">>, <<"a", "u", "+", "x">>, <<"u", "+", "x">> }
-Exprs == Singles \cup Doubles \cup Strings \cup Longs \cup HandWritten
+LaterBad == UNION {{<<"a", ":", "u", "+", "x", ",">> \o s : s \in [1..n -> Alphabet]} : n \in 0..(MaxLen - 1)}   \* a good clause, then any string
+WellFormedOnes == Singles \cup Doubles \cup HandWritten
+RawOnes == (Strings \cup Longs \cup LaterBad) \ WellFormedOnes
 
 \* ---- the scanner ----
 Matched == kind # "link" /\ (tgt = "a" \/ (tgt = "d" /\ kind = "dir") \/ (tgt = "f" /\ kind = "file"))
@@ -69,7 +72,10 @@ Applied == LET B == gacc \cap pacc IN
            ELSE CASE op = "-" -> perm \ B [] op = "+" -> perm \cup B [] op = "=" -> (perm \ gacc) \cup B
 Entry == [t |-> tgt, G |-> gacc, o |-> op, P |-> pacc, m |-> Matched, b |-> perm, a |-> Applied]
 
-Init == /\ expr \in Exprs /\ kind \in Kinds /\ \E p \in StartPerms : m0 = TypeOfKind(kind) + p
+\* well-formed expressions from every start permission; the raw strings (whose fate does not depend on the mode) from StringPerms
+Init == /\ kind \in Kinds
+        /\ \/ expr \in WellFormedOnes /\ \E p \in StartPerms : m0 = TypeOfKind(kind) + p
+           \/ expr \in RawOnes /\ \E p \in StringPerms : m0 = TypeOfKind(kind) + p
         /\ inp = expr /\ st = "target" /\ ci = 1 /\ tgt = "-" /\ gacc = {} /\ op = "0" /\ pacc = {}
         /\ perm = Bits(m0) \cap 0..8 /\ log = <<>>
 
@@ -119,9 +125,10 @@ Mode == TypeBits(m0) + SumPow((Bits(m0) \cap 9..11) \cup perm)
 Ref == SymMode(kind, m0, expr)
 AgreesWithSymMode == Halted => /\ Ref.st = (IF st = "unsettled" THEN "*" ELSE st)
                                /\ (st # "unsettled" => Ref.mode = Mode)
-TypeBitsKept == /\ TypeBits(Mode) = TypeBits(m0) /\ Bits(Mode) \cap 9..11 = Bits(m0) \cap 9..11
+TypeBitsKept == /\ perm \subseteq 0..8
+                /\ (Halted => TypeBits(Mode) = TypeBits(m0) /\ Bits(Mode) \cap 9..11 = Bits(m0) \cap 9..11)
                 /\ (Halted /\ st # "unsettled" => TypeBits(Ref.mode) = TypeBits(m0) /\ Bits(Ref.mode) \cap 9..11 = Bits(m0) \cap 9..11)
-LinksUnchanged == kind = "link" => Mode = m0 /\ (Halted /\ st # "unsettled" => Ref.mode = m0)
+LinksUnchanged == kind = "link" => perm = Bits(m0) \cap 0..8 /\ (Halted /\ st # "unsettled" => Ref.mode = m0 /\ Mode = m0)
 FirstClauseError == Halted => /\ (st = "err" <=> (expr # <<>> /\ ~WellFormed(Clauses(expr)[1])))
                               /\ (st = "err" => Mode = m0 /\ log = <<>>)
                               /\ (st = "ok" => \A i \in 1..Len(Clauses(expr)) : expr = <<>> \/ WellFormed(Clauses(expr)[i]))
